@@ -6,6 +6,7 @@ import (
 	"github.com/dadrus/heimdall/verif/props/c02"
 	"github.com/dadrus/heimdall/verif/props/c06"
 	"github.com/dadrus/heimdall/verif/props/c07"
+	"github.com/dadrus/heimdall/verif/props/c08"
 	"github.com/dadrus/heimdall/verif/props/c09"
 	"github.com/dadrus/heimdall/verif/props/c12"
 	"github.com/dadrus/heimdall/verif/props/c13"
@@ -20,6 +21,7 @@ func main() {
 		c02.Check(),
 		c06.Check(),
 		c07.Check(),
+		c08.Check(),
 		c09.Check(),
 		c12.Check(),
 		c13.Check(),
